@@ -217,7 +217,7 @@ def h_description(ctx, kinds, ncodecs, extras, variant=0):
         for j in range(i):
             ctx.assume(sx.Not(sx.eq(d.media[i].rtp.muxId, d.media[j].rtp.muxId)), "mids are distinct")
     d.group = [GroupDescription(semantic="BUNDLE", items=[m.rtp.muxId for m in d.media])]
-    d.msid_semantic = [GroupDescription(semantic="WMS", items=["*"])]
+    d.msid_semantic = [GroupDescription(semantic="WMS", items=pick(ctx, "wms_items", [["*"], [], [_tok(ctx, "wms_stream")]]))]  # (Chrome sends "a=msid-semantic: WMS" without members)
     text = _str(d)
     ctx.reach("serialised")
     e = SessionDescription.parse(text)
